@@ -1,7 +1,7 @@
 (* C02 — Intra pictures reconstruct exactly as H.263 prescribes.
    Proved so far (the composition over whole pictures is tied by execution against the
    reference reconstruction, see DESIGN.md): *)
-From H263V Require Import base.Prelude spec.SpecRecon model.Types model.Tables model.Syntax model.Recon model.Decoder proofs.ReconSpec proofs.RlePlacement model.Reader spec.SpecTables proofs.VlcTables model.F32 proofs.PlaneShape proofs.GatherSpec proofs.IdctPlacement model.Header model.Decoder spec.SpecHeader proofs.BlockRoundTrip proofs.MacroblockRoundTrip proofs.PictureRoundTrip.
+From H263V Require Import base.Prelude spec.SpecRecon model.Types model.Tables model.Syntax model.Recon model.Decoder proofs.ReconSpec proofs.RlePlacement model.Reader spec.SpecTables proofs.VlcTables model.F32 proofs.PlaneShape proofs.GatherSpec proofs.IdctPlacement model.Header model.Decoder spec.SpecHeader proofs.BlockRoundTrip proofs.MacroblockRoundTrip proofs.PictureRoundTrip proofs.IntraPicture.
 
 (* every coefficient: sign(L) (Q (2|L|+1) - [Q even]) saturated to -2048..2047, for every quantizer and level *)
 Theorem C02_dequant_exact : forall q level, 0 <= q -> dequant q level = spec_dequant q level.
@@ -113,7 +113,37 @@ Proof.
     cbn [wf_events wf_event ev_last esc_width]. repeat split; try lia; try reflexivity. vm_compute. tauto.
 Qed.
 
+(* THE COMPOSITION, from bits to samples, for an intra picture whose header has been parsed (C06 round trips) and whose body is
+   the encoding of macroblocks given by field values: decoding succeeds, stops exactly behind the picture, the planes have
+   exactly the signalled size (luma w x h, chroma ceil(w/2) x ceil(h/2)), and every sample is the transform value - rounded and
+   clipped to 0..255 by `add_val` - of the coefficient block `pure_loop` computes for its 8x8 position (dequantised and placed
+   in zig-zag order: C02_block_placement).  What `add_val` does with a block is the float transform of C10. *)
+Theorem C02_intra_picture : forall o last reference running0 r0 hdr fmt w h fms rest pos st',
+  let v1 := sorenson o && (match version hdr with Some 1 => true | _ => false end) in
+  let running := (if has_plusptype hdr && has_opptype hdr then options hdr
+                  else if has_plusptype hdr then Z.lor (Z.ldiff (options hdr) opptype_options) (Z.land running0 opptype_options)
+                  else Z.lor (Z.ldiff (Z.ldiff (options hdr) opptype_options) mpptype_options) (Z.land running0 (Z.lor opptype_options mpptype_options))) in
+  let mpl := (w + 15) / 16 in let mbh := (h + 15) / 16 in let levw := mpl * 16 in let levh := mbh * 16 in
+  let np := mkDecoded hdr fmt (new_plane w h) (new_plane ((w + 1) / 2) ((h + 1) / 2)) (new_plane ((w + 1) / 2) ((h + 1) / 2)) ((w + 1) / 2) in
+  let st0 := mkLoop (mkReader (enc_fulls true v1 fms ++ rest) pos) (quantizer hdr) [] []
+                    (repeatZ DctZero (levw * levh / 64)) (repeatZ DctZero (levw * levh / 4 / 64)) (repeatZ DctZero (levw * levh / 4 / 64)) in
+  decode_picture o (match last with Some p => Some (d_header p) | None => None end) r0 = Ok (Some hdr, mkReader (enc_fulls true v1 fms ++ rest) pos) ->
+  picture_type hdr = IFrame -> format hdr = Some fmt -> into_width_and_height fmt = Some (w, h) -> 1 <= w -> 1 <= h ->
+  simple_picture hdr running ->
+  Forall (wf_full true v1) fms -> loop_ok fms 0 (mpl * mbh) ->
+  pure_loop np running mpl levw fms st0 = Ok st' ->
+  exists pic pos',
+    reconstruct o last reference running0 r0 = Ok (pic, mkReader rest pos') /\
+    d_header pic = hdr /\ plane_ok w h (d_luma pic) /\ plane_ok ((w + 1) / 2) ((h + 1) / 2) (d_cb pic) /\ plane_ok ((w + 1) / 2) ((h + 1) / 2) (d_cr pic) /\
+    (forall x y, 0 <= x < w -> 0 <= y < h ->
+       at_ (d_luma pic) x y = add_val (block_of (l_luma st') (mpl * 2) x y) (x mod 8) (y mod 8) 0) /\
+    (forall x y, 0 <= x < (w + 1) / 2 -> 0 <= y < (h + 1) / 2 ->
+       at_ (d_cb pic) x y = add_val (block_of (l_cb st') mpl x y) (x mod 8) (y mod 8) 0 /\
+       at_ (d_cr pic) x y = add_val (block_of (l_cr st') mpl x y) (x mod 8) (y mod 8) 0).
+Proof. exact reconstruct_intra. Qed.
+
 Print Assumptions C02_dequant_exact.
+Print Assumptions C02_intra_picture.
 Print Assumptions C02_picture_body_roundtrip.
 Print Assumptions C02_block_roundtrip.
 Print Assumptions C02_macroblock_roundtrip.
